@@ -8,7 +8,7 @@ Exit codes of a check: 0 property held on everything explored (KNOWN-FINDING lin
 """
 import hashlib, json, os, re, subprocess, sys, time, shutil, threading
 
-VERIF = "/verif"
+VERIF = os.path.dirname(os.path.dirname(os.path.abspath(__file__)))
 WORK = os.path.join(VERIF, "work")
 SPEC = os.path.join(VERIF, "spec")
 HARNESS = os.path.join(VERIF, "harness")
